@@ -123,6 +123,19 @@ def write_document(c, path):
         ia = model.createInitialAssignment()
         ia.setSymbol(nm["k2"])
         ia.setMath(libsbml.parseL3Formula(f"{nm['k1']} + 1"))
+    if c.get("iachain"):
+        # a chain of initial assignments over parameters that also carry a (to be overridden) value attribute:
+        # kq1 := k1 + 0.5, kq2 := 2 * kq1, listed in dependency order or the other way round
+        for pid, val in (("kq1", 50.0), ("kq2", 60.0)):
+            p = model.createParameter()
+            p.setId(pid)
+            p.setValue(val)
+            p.setConstant(True)
+        chain = [("kq1", f"{nm['k1']} + 0.5"), ("kq2", "2 * kq1")]
+        for sym_, math_ in chain if c["iachain"] == "fwd" else chain[::-1]:
+            ia = model.createInitialAssignment()
+            ia.setSymbol(sym_)
+            ia.setMath(libsbml.parseL3Formula(math_))
     if c["fdef"] or c["law"] == "fcall":
         fd = model.createFunctionDefinition()
         fd.setId(nm["f"])
@@ -170,7 +183,7 @@ def write_document(c, path):
     sr.setStoichiometry(1.0)
     sr.setConstant(True)
     kl = r2.createKineticLaw()
-    kl.setMath(libsbml.parseL3Formula(f"{nm['k2']} * {nm['S2']}"))
+    kl.setMath(libsbml.parseL3Formula(f"{nm['k2']} * {nm['S2']}" + (" * kq2" if c.get("iachain") else "")))
     if doc.checkInternalConsistency() > 0 and any(doc.getError(i).getSeverity() >= libsbml.LIBSBML_SEV_ERROR for i in range(doc.getNumErrors())):
         msgs = [doc.getError(i).getShortMessage() for i in range(doc.getNumErrors())]
         from mc.core import HarnessError
@@ -203,10 +216,11 @@ def reference(c):
         env = {"S1": sym["S1"], "S2": sym["S2"], "k1": k1, "k2": k2}
         env["d"] = k1 * (1 + sym["S2"])
         v1 = law(env)
-        v2 = k2 * sym["S2"]
+        v2 = k2 * sym["S2"] * (2 * (k1 + 0.5) if c.get("iachain") else 1.0)
         return {"S1": -v1, "S2": nu * v1 - v2}, {"r1": v1, "r2": v2}
 
-    return {"k1": k1, "k2": k2, "symbol_initial": symbol_initial(), "derivs": derivs}
+    extra = {"kq1": k1 + 0.5, "kq2": 2 * (k1 + 0.5)} if c.get("iachain") else {}
+    return {"k1": k1, "k2": k2, **extra, "symbol_initial": symbol_initial(), "derivs": derivs}
 
 
 def generate(tier):
@@ -230,6 +244,9 @@ def generate(tier):
             add(hosu=hosu, init=init, k2=k2, sia=sia, ruled=ruled, law=law, fdef=int(law == "fcall"))
         for names, hosu, k2, law in it.product(names_all[1:], (0, 1), K2, ("ma", "exp", "piecewise", "fcall")):
             add(names=names, hosu=hosu, k2=k2, law=law, fdef=int(law == "fcall"))
+    # chains of initial assignments, listed in and against dependency order
+    for chain, hosu, k2, sia, law, names in it.product(("fwd", "rev"), (0, 1), K2, (0, 1), ("ma", "piecewise", "fcall"), ("plain", "keyword", "timelike")):
+        add(iachain=chain, hosu=hosu, k2=k2, sia=sia, law=law, names=names, fdef=int(law == "fcall"))
     for session in ("two-stems", "same-stem", "reevaluate-first"):
         for law, names in it.product(("ma", "power", "fcall"), ("plain", "underscore")):
             add(session=session, law=law, names=names, fdef=int(law == "fcall"))
@@ -276,7 +293,8 @@ def compare(m, c, txt, nt):
             return outcome(False, "wrong-initial", symptom="wrong-initial-value", nontrivial=nt,
                            detail=f"species {nm[s]}: imported initial value {got} is neither the amount {amount0} nor the concentration {conc0} the document prescribes | {txt}")
     # parameters
-    for pname in ("k1", "k2"):
+    for pname in ("k1", "k2") + (("kq1", "kq2") if c.get("iachain") else ()):
+        nm = {**nm, "kq1": "kq1", "kq2": "kq2"}
         cand = [n for n in pv.index if n == nm[pname] or n.rstrip("_") == nm[pname] or n.strip("_") == nm[pname].strip("_")]
         if not cand:
             return outcome(False, "parameter-lost", symptom="parameter-not-found", nontrivial=nt, detail=f"{nm[pname]!r} not among {list(pv.index)} | {txt}")
